@@ -792,3 +792,44 @@ func mustDeriveSum(w *World, v, target ssa.Value, depth int) bool {
 	}
 	return false
 }
+
+// mintHandOverAt decides, for the ordering s of (now, current period's EndTime), whether the minting routine hands the
+// period over (history write and recursion live, no persist of the old state) - used by C19 for sibling agreement on
+// the instant from which a period counts as over.
+func mintHandOverAt(w *World, s int) (handover bool, decided bool) {
+	mint := w.Func("x/cfeminter/keeper.Keeper.mint")
+	if mint == nil {
+		return false, false
+	}
+	isMintRec := func(s *Site) bool { return calleeIs(s, "x/cfeminter/keeper.Keeper.mint") }
+	isHist := func(s *Site) bool { return calleeIs(s, "x/cfeminter/keeper.Keeper.SetMinterStateHistory") }
+	var hists, recs []EffSite
+	for _, e := range w.effectsBelow(mint, func(s *Site) bool { return isMintRec(s) || isHist(s) }, 2) {
+		if isHist(e.Site) {
+			hists = append(hists, e)
+		} else {
+			recs = append(recs, e)
+		}
+	}
+	if len(hists) != 1 || len(recs) != 1 {
+		return false, false
+	}
+	term := func(v ssa.Value) string {
+		if isBlockTime(v) {
+			return "now"
+		}
+		if _, ok := derefOfPtrField(v, "EndTime"); ok {
+			return "end"
+		}
+		if loadOfField(v, "EndTime", nil) {
+			return "endptr"
+		}
+		return ""
+	}
+	eval := OrderEval(term, twoTermCmp("now", "end", s), func(t string) (bool, bool) { return false, t == "endptr" })
+	h, rc := LiveEff(mint, eval, hists[0]), LiveEff(mint, eval, recs[0])
+	if h != rc {
+		return false, false
+	}
+	return h, true
+}
